@@ -309,7 +309,60 @@ pub fn run(ctx: &Ctx) -> Report {
     name_styles(seed, ctx.pick(120u64, 2000), &mut rep);
     cross_module_cycles(seed, ctx.pick(120u64, 2000), &mut rep);
     copied_bodies(&mut rep);
+    multi_clause_imports(&mut rep);
     rep
+}
+
+/// An IMPORTS clause with several `FROM` parts: each part becomes a use line of its own symbols; that one part has to be
+/// rendered as a glob (it names a class) says nothing about the others. Exhaustive over the position of the class-like part
+/// and the spelling styles of the plain parts.
+fn multi_clause_imports(rep: &mut Report) {
+    let parts: [(&str, &str, &[&str]); 3] = [
+        ("Mk", "KIND, Pdu-Base", &[]),
+        ("Mv", "Colour, Speed, max-speed", &["Colour", "Speed", "MAX_SPEED"]),
+        ("Mw", "Wheel-Count, top-gear", &["WheelCount", "TOP_GEAR"]),
+    ];
+    let defs = [
+        "Mk DEFINITIONS AUTOMATIC TAGS ::= BEGIN\nKIND ::= CLASS { &id INTEGER UNIQUE }\nPdu-Base ::= SEQUENCE { n INTEGER }\nEND\n",
+        "Mv DEFINITIONS AUTOMATIC TAGS ::= BEGIN\nColour ::= ENUMERATED { red, green }\nSpeed ::= INTEGER (0..400)\nmax-speed Speed ::= 300\nEND\n",
+        "Mw DEFINITIONS AUTOMATIC TAGS ::= BEGIN\nWheel-Count ::= INTEGER (2..18)\ntop-gear INTEGER ::= 6\nEND\n",
+    ];
+    for order in permute(&[0, 1, 2]) {
+        let clause: Vec<String> = order.iter().map(|&k| format!("{} FROM {}", parts[k].1, parts[k].0)).collect();
+        let user = format!("Mu DEFINITIONS AUTOMATIC TAGS ::= BEGIN\nIMPORTS {};\nCar ::= SEQUENCE {{ paint Colour, fast Speed DEFAULT max-speed, wheels Wheel-Count, gear INTEGER DEFAULT top-gear, base Pdu-Base }}\nEND\n", clause.join("\n"));
+        let mut srcs = vec![user];
+        srcs.extend(defs.iter().map(|d| d.to_string()));
+        let run = comp::rasn(&srcs, &Cfg::default_cfg());
+        rep.evaluations += 1;
+        let comp::Outcome::Ok { generated, warnings } = &run.out else {
+            rep.count("multi_clause_cases[not Ok]", 1);
+            continue;
+        };
+        if !warnings.is_empty() {
+            rep.count("multi_clause_cases[warnings]", 1);
+            continue;
+        }
+        let Ok(mods) = crate::proj::project(generated) else { continue };
+        let Some(mu) = mods.iter().find(|m| m.name == "mu") else { continue };
+        rep.count("multi_clause_cases_judged", 1);
+        rep.nontrivial.insert(hash_str(&srcs.join("|")));
+        for (mname, _, want) in parts.iter().filter(|p| !p.2.is_empty()) {
+            let prefix = format!("super::{}::", mname.to_lowercase());
+            let lines: Vec<String> = mu.uses().into_iter().filter(|u| u.starts_with(&prefix)).collect();
+            rep.count("use_symbol_sets_compared", 1);
+            let got: BTreeSet<String> = lines.iter().flat_map(|u| u[prefix.len()..].trim_start_matches('{').trim_end_matches('}').split(',').map(|s| s.trim().to_string()).collect::<Vec<_>>()).filter(|s| !s.is_empty()).collect();
+            let want: BTreeSet<String> = want.iter().map(|s| s.to_string()).collect();
+            if got != want {
+                let pos = order.iter().position(|&k| parts[k].0 == *mname).unwrap();
+                let class_pos = order.iter().position(|&k| k == 0).unwrap();
+                rep.violations.push(Violation {
+                    sig: format!("c12|use-lines|{}|part-{}-the-class-part", if got.contains("*") { "wildcard-for-plain-symbols" } else { "symbol-set-differs" }, if pos > class_pos { "after" } else { "before" }),
+                    what: format!("IMPORTS part `.. FROM {mname}` rendered as {lines:?}, expected exactly {want:?} (clause order {:?})", order.iter().map(|&k| parts[k].0).collect::<Vec<_>>()),
+                    replay: json!({"origin": format!("multi-clause-imports(order={order:?})"), "sources": srcs}),
+                });
+            }
+        }
+    }
 }
 
 /// Type bodies the linker copies into another module (COMPONENTS OF, instantiation of a parameterized type) keep the
@@ -376,6 +429,17 @@ fn copied_bodies(rep: &mut Report) {
 
 /// sources of the template workloads (also type-checked by C01): even = name styles, odd = cross-module cycles
 pub fn template_sources(seed: u64, i: u64) -> Vec<String> {
+    if i % 8 == 5 {
+        // SEQUENCE OF / SET OF whose element is a constrained type reference (top level, component, alternative), and an
+        // IMPORTS clause with several FROM parts of which the first names a class
+        let k = i / 8;
+        let (c1, c2) = [("(0..20)", "(SIZE (1..8))"), ("(5 | 7)", "(SIZE (2))"), ("(MIN..50)", "(SIZE (0..3, ...))")][(k % 3) as usize];
+        return vec![
+            format!("Ml DEFINITIONS AUTOMATIC TAGS ::= BEGIN\nIMPORTS KIND, Pdu-Base FROM Mk  Colour, Speed, max-speed FROM Mv;\nPercent ::= INTEGER (0..100)\nLabel ::= IA5String\nLq1 ::= SEQUENCE OF Percent {c1}\nLq2 ::= SET OF Label {c2}\nHolder ::= SEQUENCE {{ items SEQUENCE OF Percent {c1}, tags SET OF Label {c2} OPTIONAL, paint Colour, fast Speed DEFAULT max-speed, base Pdu-Base }}\nPick ::= CHOICE {{ many SEQUENCE OF Percent {c1}, one Percent }}\nEND\n"),
+            "Mk DEFINITIONS AUTOMATIC TAGS ::= BEGIN\nKIND ::= CLASS { &id INTEGER UNIQUE }\nPdu-Base ::= SEQUENCE { n INTEGER }\nEND\n".to_string(),
+            "Mv DEFINITIONS AUTOMATIC TAGS ::= BEGIN\nColour ::= ENUMERATED { red, green }\nSpeed ::= INTEGER (0..400)\nmax-speed Speed ::= 300\nEND\n".to_string(),
+        ];
+    }
     if i % 8 == 7 {
         // type bodies copied across modules with differing tagging defaults (COMPONENTS OF, imported parameterized type)
         let k = i / 8;
